@@ -75,7 +75,7 @@ func c05Witnesses() []c05Witness {
 		c05Witness{"delslicer-dangling", []string{"h.new", "h.setrow " + s1 + " A1 " + hx("Month") + " " + hx("Year") + " " + hx("Type"), "h.table " + s1 + " A1:C3 " + hx("SlT1") + " 0", "h.slicer " + s1 + " " + hx("Month") + " C12 " + s1 + " " + hx("SlT1") + " 3", "h.delslicer " + hx("Month"), "h.save"}},
 		c05Witness{"vba-write", []string{"h.new", "h.vba", "h.save"}},
 		c05Witness{"rename-duplicate", []string{"h.new", "h.newsheet " + s2, "h.rensheet " + s1 + " " + s2, "h.save"}},
-		c05Witness{"dv-markup", []string{"h.new", "h.dv " + s1 + " A1:A3 4 1 " + hx("AND(A1<5,B1>\"&\")"), "h.save"}},
+		c05Witness{"dv-markup", []string{"h.new", "h.dv " + s1 + " " + hx("A1:A3") + " 4 1 " + hx("AND(A1<5,B1>\"&\")"), "h.save"}},
 		c05Witness{"media-renumber", []string{"h.new", "h.picbytes " + s1 + " A1 0 1", "h.picbytes " + s1 + " C1 0 2", "h.delpic " + s1 + " A1", "h.picbytes " + s1 + " E1 0 3", "h.save"}},
 		c05Witness{"comment-delete-readd", []string{"h.new", "h.newsheet " + s2, "h.comment " + s1 + " A1 " + hx("Au") + " " + hx("t"), "h.comment " + s2 + " A1 " + hx("Au") + " " + hx("t"), "h.delcomment " + s1 + " A1", "h.save", "h.reopen", "h.comment " + s1 + " B2 " + hx("Au") + " " + hx("t2"), "h.save"}},
 	)
